@@ -119,13 +119,32 @@ impl Walrus {
             persisted_tail = None;
         }
 
-        // Important: release the per-column lock; we'll reacquire each iteration
+        // The persisted position has been folded into the in-memory cursor above.
+        let _ = persisted_tail;
         drop(info);
         #[cfg(walrus_verif)]
         crate::wal::verif::sched_point("rn_after_hydrate");
 
         loop {
-            // Reacquire column lock at the start of each iteration
+            // Snapshot the writer BEFORE taking the column lock. The writer takes the column
+            // lock (to publish a sealed block) while holding its own locks, so the reader must
+            // never wait for the writer's locks while holding the column lock. Everything after
+            // this point - deciding where the consumer stands, reading the entry and
+            // committing the new position - happens under the column lock, so that two
+            // consumers can neither take the same entry nor overtake each other, and a block
+            // sealed in the meantime is seen before the tail.
+            let writer_snapshot: Option<(Block, u64)> = {
+                let map = self.writers.read().map_err(|_| {
+                    io::Error::new(io::ErrorKind::Other, "writers read lock poisoned")
+                })?;
+                match map.get(col_name) {
+                    Some(w) => w.snapshot_block().ok(),
+                    None => None,
+                }
+            };
+            #[cfg(walrus_verif)]
+            crate::wal::verif::sched_point("rn_after_writer_snapshot");
+
             let mut info = info_arc.write().map_err(|_| {
                 io::Error::new(io::ErrorKind::Other, "col info write lock poisoned")
             })?;
@@ -213,79 +232,28 @@ impl Walrus {
                 }
             }
 
-            // Tail path
-            let tail_snapshot = (info.tail_block_id, info.tail_offset);
-            drop(info);
-            #[cfg(walrus_verif)]
-            crate::wal::verif::sched_point("rn_tail_after_snapshot");
-
-            let writer_arc = {
-                let map = self.writers.read().map_err(|_| {
-                    io::Error::new(io::ErrorKind::Other, "writers read lock poisoned")
-                })?;
-                match map.get(col_name) {
-                    Some(w) => w.clone(),
-                    None => return Ok(None),
-                }
+            // Tail path (column lock held)
+            let (active_block, written) = match writer_snapshot {
+                Some(v) => v,
+                None => return Ok(None),
             };
-            let (active_block, written) = writer_arc.snapshot_block()?;
-            #[cfg(walrus_verif)]
-            crate::wal::verif::sched_point("rn_after_writer_snapshot");
-
-            // If persisted tail points to a different block and that block is now sealed in chain, fold it
-            // Reacquire column lock for folding/rebasing decisions
-            let mut info = info_arc.write().map_err(|_| {
-                io::Error::new(io::ErrorKind::Other, "col info write lock poisoned")
-            })?;
-            if let Some((tail_block_id, tail_off)) = persisted_tail {
-                if tail_block_id != active_block.id {
-                    if let Some(idx) = info
-                        .chain
-                        .iter()
-                        .enumerate()
-                        .find(|(_, b)| b.id == tail_block_id)
-                        .map(|(idx, _)| idx)
-                    {
-                        info.cur_block_idx = idx;
-                        info.cur_block_offset = tail_off.min(info.chain[idx].used);
-                        if checkpoint {
-                            if self.should_persist(&mut info, true) {
-                                if let Ok(mut idx_guard) = self.read_offset_index.write() {
-                                    let _ = idx_guard.set(
-                                        col_name.to_string(),
-                                        info.cur_block_idx as u64,
-                                        info.cur_block_offset,
-                                    );
-                                }
-                            }
-                        }
-                        persisted_tail = None; // sealed now
-                        drop(info);
-                        continue;
-                    } else {
-                        // rebase tail to current active block at 0
-                        persisted_tail = Some((active_block.id, 0));
-                        if checkpoint {
-                            if self.should_persist(&mut info, true) {
-                                if let Ok(mut idx_guard) = self.read_offset_index.write() {
-                                    let _ = idx_guard.set(
-                                        col_name.to_string(),
-                                        active_block.id | TAIL_FLAG,
-                                        0,
-                                    );
-                                }
-                            }
-                        }
-                    }
-                }
+            // The writer rotated after the snapshot was taken: that block is sealed now and
+            // belongs to the chain handled above. Take a fresh snapshot.
+            if info.chain.iter().any(|b| b.id == active_block.id) {
+                drop(info);
+                continue;
+            }
+            let tail_off = if info.tail_block_id == active_block.id {
+                info.tail_offset
             } else {
-                // No persisted tail in this call: init at current active block start. The
-                // provisional position (block start) is only written when the index does not
-                // already hold a position inside this block: overwriting that with offset 0
-                // on every poll made a restarted consumer re-read entries it had consumed
-                // (and, in AtLeastOnce mode, reset the persist counter on every call so that
-                // the real offset was never persisted).
-                persisted_tail = Some((active_block.id, 0));
+                0
+            };
+            // The provisional position (block start) is only written the first time a consumer
+            // reaches this tail block, i.e. when the index does not already hold a position
+            // inside it: overwriting that on every poll made a restarted consumer re-read
+            // entries it had consumed (and, in AtLeastOnce mode, reset the persist counter on
+            // every call so that the real offset was never persisted).
+            if checkpoint {
                 let already_in_block = self
                     .read_offset_index
                     .read()
@@ -295,59 +263,32 @@ impl Walrus {
                             .map(|p| p.cur_block_idx == (active_block.id | TAIL_FLAG))
                     })
                     .unwrap_or(false);
-                if checkpoint && !already_in_block {
-                    if self.should_persist(&mut info, true) {
-                        if let Ok(mut idx_guard) = self.read_offset_index.write() {
-                            let _ =
-                                idx_guard.set(col_name.to_string(), active_block.id | TAIL_FLAG, 0);
-                        }
+                if !already_in_block && self.should_persist(&mut info, true) {
+                    if let Ok(mut idx_guard) = self.read_offset_index.write() {
+                        let _ = idx_guard.set(col_name.to_string(), active_block.id | TAIL_FLAG, 0);
                     }
                 }
             }
-            drop(info);
             #[cfg(walrus_verif)]
             crate::wal::verif::sched_point("rn_before_tail_read");
-
-            // Choose the best known tail offset: prefer in-memory snapshot for current active block
-            let (tail_block_id, mut tail_off) = match persisted_tail {
-                Some(v) => v,
-                None => return Ok(None),
-            };
-            if tail_block_id == active_block.id {
-                let (snap_id, snap_off) = tail_snapshot;
-                if snap_id == active_block.id {
-                    tail_off = tail_off.max(snap_off);
-                }
-            } else {
-                // If writer rotated and persisted tail points elsewhere, loop above will fold/rebase
-            }
-            // If writer rotated after we set persisted_tail, loop to fold/rebase
-            if tail_block_id != active_block.id {
-                // Loop to next iteration; `info` will be reacquired at loop top
-                continue;
-            }
 
             if tail_off < written {
                 match active_block.read(tail_off) {
                     Ok((entry, consumed)) => {
                         let new_off = tail_off + consumed as u64;
-                        #[cfg(walrus_verif)]
-                        crate::wal::verif::sched_point("rn_after_tail_read");
-                        // Reacquire column lock to update in-memory progress, then decide persistence
-                        let mut info = info_arc.write().map_err(|_| {
-                            io::Error::new(io::ErrorKind::Other, "col info write lock poisoned")
-                        })?;
                         let mut maybe_persist = None;
                         if checkpoint {
                             info.tail_block_id = active_block.id;
                             info.tail_offset = new_off;
                             maybe_persist = if self.should_persist(&mut info, false) {
-                                Some((tail_block_id | TAIL_FLAG, new_off))
+                                Some((active_block.id | TAIL_FLAG, new_off))
                             } else {
                                 None
                             };
                         }
                         drop(info);
+                        #[cfg(walrus_verif)]
+                        crate::wal::verif::sched_point("rn_after_tail_read");
                         if checkpoint {
                             if let Some((idx_val, off_val)) = maybe_persist {
                                 if let Ok(mut idx_guard) = self.read_offset_index.write() {
@@ -852,7 +793,15 @@ impl Walrus {
 
         // Plan tail if we're at the end of sealed chain
         if cur_idx >= chain_len_at_plan {
-            if let Some((active_block, written)) = writer_snapshot.clone() {
+            // The writer snapshot was taken before the column lock. If the writer has rotated
+            // since, the snapshotted block is already part of the sealed chain planned above and
+            // must not be planned a second time as the tail (its entries would be returned
+            // twice).
+            let snapshot_is_current = writer_snapshot
+                .as_ref()
+                .map(|(b, _)| !chain.iter().any(|c| c.id == b.id))
+                .unwrap_or(false);
+            if let Some((active_block, written)) = writer_snapshot.clone().filter(|_| snapshot_is_current) {
                 // Determine start of tail read
                 let mut tail_start = if start_offset.is_some() {
                     tail_offset // 'rem'
